@@ -38,6 +38,9 @@ struct Stats {
     choices_out_of_range: [u64; 3],
     choices_overflow: u64,
     empty_lists: u64,
+    requests_on_empty_table: u64,
+    requests_on_empty_table_ignored: u64,
+    choices_empty_category: u64,
     stale_page: u64,
     reconfigured_open: u64,
     reconfigured_clamped: u64,
@@ -100,6 +103,17 @@ fn symbol_tables(snap: &str) -> (Vec<(String, Option<usize>)>, Vec<String>) {
     (cats, tabs)
 }
 
+/// the operation chooses a category of the symbol table whose sub-table holds no symbol (FX1 repair: closes the list)
+pub fn chose_empty_category(st: &Step) -> bool {
+    let (Some(info), Some(v), Some(n)) = (sel_info(st.pre), st.cand_pre, choice_index(st)) else { return false };
+    if v.panicked || v.per == 0 || info.kind != 'M' || info.detail != "-" {
+        return false;
+    }
+    let Some(offset) = info.page.checked_mul(v.per).and_then(|x| x.checked_add(n)) else { return false };
+    let (cats, tabs) = symbol_tables(st.pre);
+    matches!(cats.get(offset), Some((_, Some(ix))) if tabs.get(*ix % 256).is_some_and(|t| t.is_empty()))
+}
+
 fn saved_cursor(snap: &str) -> Option<usize> {
     let t = com_tokens(snap);
     let n: usize = t[1].parse().unwrap();
@@ -120,6 +134,16 @@ pub fn check(out: &mut Out, st: &Step) {
         // closing restores the cursor saved when the list was opened, like cancel_selecting
         if sections(st.post)[0] != "E" || stack_len(st.post) + 1 != stack_len(st.pre).max(1) {
             fail(out, "new", &format!("an option / layout / dictionary call closed the list but left state {} with {} -> {} saved cursors", sections(st.post)[0], stack_len(st.pre), stack_len(st.post)), st);
+        }
+    }
+    // FX1 (repaired): how often the symbol table is asked for in an editor that has none (` / Ctrl-0 / Ctrl-1 while no
+    // list is open); check A below reports a list that is opened with nothing in it
+    if pre_sel.is_none() && sections(st.pre)[0] == "E" && symbol_tables(st.pre).0.is_empty() {
+        if st.key.is_some_and(|k| (k.code == KeyCode::Grave && !k.modifiers.ctrl && !k.modifiers.shift) || (k.modifiers.ctrl && matches!(k.code, KeyCode::N0 | KeyCode::N1))) {
+            STATS.with(|s| s.borrow_mut().requests_on_empty_table += 1);
+            if post_sel.is_none() && st.ret == "I" {
+                STATS.with(|s| s.borrow_mut().requests_on_empty_table_ignored += 1);
+            }
         }
     }
     // ---------------------------------------------------------------- A. an open list is consistent
@@ -329,6 +353,16 @@ fn check_choice(out: &mut Out, st: &Step, info: &SelInfo, v: &CandView, n: usize
     if info.kind == 'M' && info.detail == "-" {
         let (cats, _) = symbol_tables(st.pre);
         if let Some((_, Some(ix))) = cats.get(offset) {
+            if chose_empty_category(st) {
+                // FX1 repair: a category without symbols has nothing to list - the list is closed like a list that
+                // j / k moved onto a symbol with nothing to show: nothing inserted, the saved cursor restored
+                STATS.with(|s| s.borrow_mut().choices_empty_category += 1);
+                let ok = post_sel.is_none() && sections(st.post)[0] == "E" && sa.ends_with(&sb) && stack_len(st.post) + 1 == stack_len(st.pre).max(1);
+                if !ok {
+                    fail(out, "new", &format!("choosing category {} without symbols (sub-table {}) did not close the list with the buffer untouched: {:?}, state {}", offset, ix, post_sel, sections(st.post)[0]), st);
+                }
+                return;
+            }
             STATS.with(|s| s.borrow_mut().choices_submenu_descent += 1);
             let ok = post_sel.as_ref().is_some_and(|p| p.kind == 'M' && p.detail == ix.to_string() && p.page == 0 && p.action == info.action) && sa.ends_with(&sb);
             if !ok {
@@ -439,6 +473,9 @@ pub fn finish(out: &mut Out) {
         out.stat("c07_out_of_range_special_symbol", s.choices_out_of_range[2]);
         out.stat("c07_choices_index_overflow", s.choices_overflow);
         out.stat("c07_empty_open_lists", s.empty_lists);
+        out.stat("c07_symbol_table_requests_without_a_table", s.requests_on_empty_table);
+        out.stat("c07_symbol_table_requests_without_a_table_ignored", s.requests_on_empty_table_ignored);
+        out.stat("c07_choices_of_a_category_without_symbols", s.choices_empty_category);
         out.stat("c07_stale_pages", s.stale_page);
         out.stat("c07_config_calls_list_stays_open", s.reconfigured_open);
         out.stat("c07_config_calls_page_clamped", s.reconfigured_clamped);
